@@ -92,13 +92,13 @@ func VerifC19Step() {
 	}
 }
 
-// VerifC19Seq: sequences of operations (2 in quick, 4 in thorough) against the reference list, with
+// VerifC19Seq: sequences of operations (2 in quick, 3 in thorough) against the reference list, with
 // the caller mutating each argument after the call.
 func VerifC19Seq() {
 	vfCapFork(true)
 	steps := 2
 	if vfTier() > 0 {
-		steps = 4
+		steps = 3
 	}
 	var d Decorations
 	var model []string
